@@ -13,6 +13,10 @@
 //     end of the function; statements are walked in source order (both branches of an if see the locks taken
 //     before it); a function literal starts with no locks held;
 //  4. an unexported function inherits the locks that are held at EVERY one of its call sites in the package;
+//  6. functions whose result is a func (option constructors such as DisablePAFXFAST) are skipped: they run while
+//     the object is being built;
+//  7. a read inside a function literal of a field that the enclosing function wrote before the literal is
+//     ordered by the go statement and is not recorded;
 //  5. functions named New*/new* (constructors: the object is not shared yet), methods named JSON/String on
 //     config types while parsing, and files guarded by the verif build tag are skipped.
 package main
@@ -192,6 +196,8 @@ func baseSel(e ast.Expr) []*ast.SelectorExpr {
 
 func (w *pkgWork) walkFunc(fn string, body *ast.BlockStmt, held map[string]bool) {
 	writes := map[*ast.SelectorExpr]bool{}
+	writtenHere := map[string]bool{} // fields written so far in this function (rule 7)
+	inLit := 0
 	var walk func(n ast.Node, held map[string]bool)
 	markLHS := func(e ast.Expr) {
 		sels := baseSel(e)
@@ -205,7 +211,9 @@ func (w *pkgWork) walkFunc(fn string, body *ast.BlockStmt, held map[string]bool)
 		ast.Inspect(n, func(m ast.Node) bool {
 			switch x := m.(type) {
 			case *ast.FuncLit:
+				inLit++
 				walk(x.Body, map[string]bool{})
+				inLit--
 				return false
 			case *ast.AssignStmt:
 				for _, l := range x.Lhs {
@@ -266,6 +274,12 @@ func (w *pkgWork) walkFunc(fn string, body *ast.BlockStmt, held map[string]bool)
 					if tv, ok := w.info.Types[x]; ok && isMutex(tv.Type) {
 						return true
 					}
+					if writes[x] && inLit == 0 {
+						writtenHere[f] = true
+					}
+					if inLit > 0 && !writes[x] && writtenHere[f] {
+						return true // rule 7: initialised by the enclosing function before the goroutine starts
+					}
 					w.acc = append(w.acc, access{fn: fn, field: f, write: writes[x], locks: copyLocks(held)})
 				}
 			}
@@ -300,7 +314,13 @@ func (w *pkgWork) run() {
 		if skipFunc(n) {
 			continue
 		}
-		w.walkFunc(n, w.funcs[n].Body, map[string]bool{})
+		fd := w.funcs[n]
+		if fd.Type.Results != nil && len(fd.Type.Results.List) == 1 {
+			if _, isFunc := fd.Type.Results.List[0].Type.(*ast.FuncType); isFunc {
+				continue // rule 6: option constructors (func(*Settings)) run while the object is being built
+			}
+		}
+		w.walkFunc(n, fd.Body, map[string]bool{})
 	}
 	// rule 4: unexported functions inherit the locks held at every call site
 	for i := range w.acc {
